@@ -202,6 +202,17 @@ def font_record(case):
         tag = "CFF " if "CFF " in f2 else "CFF2"
         td = f2[tag].cff.topDictIndex[0]
         ret["nameList"] = list(td.charset) if hasattr(td, "charset") and td.charset else order
+    if "CFF " in f2:
+        # the advance each CFF charstring itself declares (nominalWidthX + operand, or defaultWidthX when the operand is absent)
+        from fontTools.pens.basePen import NullPen
+
+        top = f2["CFF "].cff.topDictIndex[0]
+        cw = {}
+        for n_ in order:
+            cs_ = top.CharStrings[n_]
+            cs_.draw(NullPen())
+            cw[n_] = int(cs_.width)
+        ret["cffAdv"] = cw
     if "vhea" in f2:
         vh = f2["vhea"]
         ret["vhea"] = {k: getattr(vh, k) for k in ("advanceHeightMax", "minTopSideBearing", "minBottomSideBearing",
